@@ -15,10 +15,26 @@ CFG = {
                   "re-entry bounded by fuel under the assumption that a replacement decodes as the requested type. I/O failures: C12; "
                   "permissions/symlinks inside layers: C11.",
     "shrink": [(1, ";")],
-    "rule": "exhaustive: all histories of length <=2 (quick) / <=3 (thorough) over one layer name and a 27-operation alphabet (cached x metadata "
+    "rule": "exhaustive: all histories of length <=2 (quick) / <=3 (thorough) over one layer name and a 24-operation alphabet (cached x metadata "
             "type x callback decisions incl. failure, uncached, write metadata/env/SBOM/exec.d/file, restore); directed: populate-restore-request "
-            "chains for every flag combination and callback decision; sampled: 3 000 (quick, <=14 ops) / 50 000 (thorough, <=40 ops) histories "
-            "over three layer names that share a dotted prefix (a, a.tools, a.sbom), directed two-layer histories on such names, incl. broken metadata files and missing exec.d sources; full snapshot of the layers directory after every step. "
+            "chains for every flag combination and callback decision; 'directed-dotted': two-layer histories over every ordered pair drawn from 11 "
+            "name universes (dotted prefix a/a.tools/a.sbom, a/a.b/a.b.c, another layer's file stem a.sbom.cdx / a.toml.x, case a/A, one edit a/ab/a-b, "
+            "blanks-punctuation-digits-non-ASCII, leading/trailing dots, phase-like build-foo/launch.x/store.build, 200-character names); 'twice': the "
+            "same layer requested twice in one build with every pair of 7 request kinds (cached/uncached x flags x metadata type), then every writer "
+            "through the reference handed out first, restore, keep; 'retry': a populated restored layer, a failing request (restored-layer callback "
+            "fails / invalid-metadata callback fails on partial or empty metadata / metadata file not a document), the same request again, then "
+            "every decision, write, restore, keep; 'chain': restore-keep chains over 3..6 (thorough ..9) restores with flags and metadata type "
+            "changing along the chain and one writer per build; 'values': special metadata integers (0, -1, i64 min/max, 2^53), the empty metadata "
+            "table vs none, contents from a pool (no bytes, non-UTF-8, 300 bytes, line breaks) in SBOMs / files / exec.d / env, carried over restores; "
+            "'big': 17/21/33/65/129 (thorough: 15-22, 31-34, 63-66, 127-130) files in a layer / env entries over 5 scopes / exec.d programs / layers "
+            "in one layers directory (quick <=65), populated, restored, kept or deleted, changed, restored; sampled: 3 000 (quick, <=14 ops) / 50 000 "
+            "(thorough, <=40 ops) histories over three layer names (half the dotted-prefix universe, half any of the universes) with values from "
+            "pools (metadata integers incl. special ones, up to 24 env entries with non-UTF-8 / '=' / suffix-like names and three process types, "
+            "file names with blanks / leading dot / non-ASCII, exec.d names with dots, dashes, digits), incl. broken metadata files and missing "
+            "exec.d sources; full snapshot of the layers directory after every step. Left out: layer names equal to another layer's <name>.toml / "
+            "<name>.sbom.<fmt>.json (the two layers' files coincide), plain files named env.build / env.launch (write_env then fails half-way; the "
+            "state an erroring write leaves is C12's), symlinks / hard links / read-only entries inside layers and a layer directory without its "
+            "metadata file as a starting state (no operation of the model creates them; C11 covers deletion of such trees). "
             "non-trivial = a restore followed by a request on a layer that carried env, exec.d or SBOM data; distinct = distinct history",
     "trusted_base": ["Spec/LayerSpec.lean is my reading of C01 (classification of the pre-state, decision table, restored/empty clauses)",
                      "the lifecycle restore between builds is simulated by the harness exactly as the property text fixes it"],
